@@ -70,6 +70,7 @@ struct MockPlan {
     size_t piece = 4096;
     std::vector<size_t> plan;   // explicit piece sizes (then `piece` for the rest)
     long fail_at_read = -1;     // throw at this read() call (1-based)
+    bool io_error_type = false; // throw a class derived from osmium::io_error instead of std::runtime_error
     bool fail_at_close = false;
 };
 MockPlan g_mock;
@@ -78,6 +79,8 @@ std::atomic<uint64_t> g_mock_last_read_seq{0};
 std::atomic<uint64_t> g_mock_close_calls{0};
 
 struct InjectedFault : public std::runtime_error { using std::runtime_error::runtime_error; };
+// real decompressors report their failures with classes derived from osmium::io_error (gzip_error, bzip2_error)
+struct InjectedIoFault : public osmium::io_error { using osmium::io_error::io_error; };
 
 class MockDecompressor final : public osmium::io::Decompressor {
     const char* m_data; size_t m_size; size_t m_pos = 0;
@@ -86,7 +89,7 @@ public:
     std::string read() override {
         const uint64_t n = ++g_mock_reads;
         g_mock_last_read_seq = tick();
-        if (g_mock.fail_at_read > 0 && n == static_cast<uint64_t>(g_mock.fail_at_read)) throw InjectedFault{"injected decompressor read fault"};
+        if (g_mock.fail_at_read > 0 && n == static_cast<uint64_t>(g_mock.fail_at_read)) { if (g_mock.io_error_type) throw InjectedIoFault{"injected decompressor read fault"}; throw InjectedFault{"injected decompressor read fault"}; }
         if (m_pos >= m_size) return std::string{};
         size_t want = g_mock.piece;
         if (n - 1 < g_mock.plan.size()) want = g_mock.plan[n - 1];
@@ -98,7 +101,7 @@ public:
     }
     void close() override {
         ++g_mock_close_calls;
-        if (g_mock.fail_at_close) throw InjectedFault{"injected decompressor close fault"};
+        if (g_mock.fail_at_close) { if (g_mock.io_error_type) throw InjectedIoFault{"injected decompressor close fault"}; throw InjectedFault{"injected decompressor close fault"}; }
     }
 };
 
@@ -255,6 +258,7 @@ void case_fault(uint64_t idx, vh::Rng& rng) {
     // ---- scenario parameters
     g_mock = MockPlan{};
     g_mock.piece = rng.pick(std::vector<size_t>{100, 1000, 4096, 100000});
+    g_mock.io_error_type = rng.coin();
     // PBF: now and then the pieces end exactly at blob boundaries (each blob = one piece), so that
     // an injected failure arrives while the parser is waiting for the next BlobHeader
     if (fmt <= F_PBF_RAW && !seed.pbf_blobs.empty() && rng.coin()) {
